@@ -62,8 +62,9 @@ B = Bounded(
     "non-multiples of 60 degrees; symmetric equivalents of every cell within N rings of real core grids.  distinct = (block, k) / "
     "(assembly, angle) / (grid, cell); non-trivial = k mod 6 != 0 and the block has off-centre children",
     bound="quick: k in -12..12 (+ the same angles through math.radians), 3 built blocks x 2 orientations, smallest reactor block, 5 seeded "
-    "blocks of the default reactor, 6 (a,b) pairs per block, 3 assemblies x k in -12..12 x 8 off angles, N = 8 rings.  thorough: k in "
-    "-60..60, every block design of the default reactor (one block per (assembly type, block type)), 40 pairs, N = 30 rings",
+    "blocks of the default reactor, 6 (a,b) pairs per block, 4 assemblies (2 built, the centre assembly, 1 seeded) x k in -12..12 and "
+    "x 4 x 8 off angles, equivalents of all cells within N = 8 rings of 3 hex and 5 Cartesian grids.  thorough: k in -60..60, every "
+    "block design of the default reactor (one block per (assembly type, block type)), 40 pairs, 7 assemblies, N = 30 rings",
 )
 T = B.thorough()
 K = 60 if T else 12
@@ -616,7 +617,7 @@ def grid_cases(core_hex, core_cart):
 
 # ------------------------------------------------------------------------------------------------ driver
 def main():
-    runLog.setVerbosity("error")
+    runLog.setVerbosity("header")
     here = os.getcwd()
     rng = B.rng
     with tempfile.TemporaryDirectory() as tmp:
@@ -633,12 +634,12 @@ def main():
                     blocks_todo.append(("built-%s-%d" % (geom, bi), b, True))
                 assems_todo.append(("built-%s" % geom, a))
             o, r = loadTestReactor(inputFileName="smallestTestReactor/armiRunSmallest.yaml")
-            runLog.setVerbosity("error")
+            runLog.setVerbosity("header")
             for a in r.core:
                 for bi, b in enumerate(a):
                     blocks_todo.append(("smallest-%d" % bi, b, False))
             o2, r2 = loadTestReactor()
-            runLog.setVerbosity("error")
+            runLog.setVerbosity("header")
             seen = {}
             for ai, a in enumerate(r2.core):
                 for bi, b in enumerate(a):
@@ -659,7 +660,7 @@ def main():
             except Exception as e:
                 cart = None
                 skip("C5G7 Cartesian core not loadable: " + repr(e)[:80])
-            runLog.setVerbosity("error")
+            runLog.setVerbosity("header")
 
             if B.replay is not None:
                 d = B.replay
